@@ -219,7 +219,26 @@ fn check_inner(sub: &str, g: &G, toks: &[char], pick: u32, l: &mut Local) -> Cas
     }
 }
 
+/// run-time configuration through a reference (`(&just).configure(..)`): check mode and the value-free positions take their
+/// own entry point (`Check::invoke_cfg` -> `go_check_cfg`); results must equal the by-value formulation (C15's family)
+fn byref_cfg_case(cs: &[char], l: &mut Local) -> CaseRes {
+    let s: String = cs.iter().collect();
+    for (name, by_ref, by_value) in super::c15::byref_cfg_family(&s) {
+        l.evals += 4;
+        l.bump("configure_through_a_reference_comparisons");
+        if by_ref != by_value {
+            let mut c = Case::new(ID, "byref-configure", &G::Empty, cs);
+            c.extra = serde_json::json!({ "template": name });
+            return Err((c, Fail::new("C04/configure-through-a-reference", format!("{}: through the reference (parse | check): {} -- by value: {}", name, by_ref, by_value))));
+        }
+    }
+    Ok(())
+}
+
 pub fn check_case(case: &Case, l: &mut Local) -> Result<(), Fail> {
+    if case.sub == "byref-configure" {
+        return byref_cfg_case(&case.toks(), l).map_err(|(_, f)| f);
+    }
     let pick = case.extra.get("pick").and_then(|p| p.as_u64()).unwrap_or(0) as u32;
     check_inner(&case.sub, &case.g, &case.toks(), pick, l).map_err(|(_, f)| f)
 }
@@ -328,6 +347,16 @@ pub fn run(tier: Tier, seed: u64) -> i32 {
         }
         Ok(())
     });
+    {
+        let strings = all_strings(&['a', 'b'], ctx.pick(6, 8));
+        let chunks: Vec<&[Vec<char>]> = strings.chunks(32).collect();
+        ctx.par_jobs(&chunks, |chunk, l| {
+            for cs in chunk.iter() {
+                byref_cfg_case(cs, l)?;
+            }
+            Ok(())
+        });
+    }
     let n = ctx.pick(3_000_000, 16_000_000);
     ctx.par_random(n, 220, 4, |tape, l| {
         let (g, input, sub, pick) = decode(tape);
